@@ -18,7 +18,7 @@ from sim.props.c04 import RANK
 from sim.util import digest, exc_signature, violation
 
 PROP = "C19"
-ODD_SIDS = ("sea.temp", "sal-1", "9lives", "_priv", "a b", "Temp_2", "x%y", "sea_temp", "v1")
+ODD_SIDS = ("sea.temp", "sal-1", "9lives", "_priv", "a b", "Temp_2", "x%y", "sea_temp", "v1", "m/s\u00b2", "temp\u00e9rature", "NO\u2083", "\u03c3T")
 SAFE = re.compile(r"^[A-Za-z][A-Za-z0-9_]*$")
 CF = re.compile(r"^[A-Za-z_][A-Za-z0-9_]*$")
 
